@@ -638,7 +638,9 @@ func c07Gen(prop string) func(r *Rng, i int, tier string) any {
 			// above the hub's last irreversible block, possibly while the hub sits on a short fork
 			in.HubStart = hubHeadNum
 			in.Merged = ((hubHeadNum+4+uint64(r.Intn(8)))/in.Bundle + 1) * in.Bundle
-			if in.Mode == "num" && in.Start >= 0 && uint64(in.Start) > hubHeadNum {
+			if in.Mode == "num" && (in.Start < 0 || uint64(in.Start) > hubHeadNum || uint64(in.Start) < in.Root.Num) {
+				// a negative start is resolved against the head of a hub that is not ready (0): it would fall below the
+				// first merged file of this scenario
 				in.Start = int64(in.Root.Num) + int64(r.Intn(span+1))
 			}
 			in.Stop = 0
